@@ -191,9 +191,47 @@ def run(ctx):
     # A6: the reload decision is taken while the environment lock is held.  A decision polled before `cached_env.lock()`
     # is stale by the time the lock is acquired: a request that returned in between is not honoured by this acquire
     # (and two waiters that both polled "reload" rebuild twice for one request).
-    locks = [c for c in acq.calls() if c.name == "std::sync::poison::mutex::Mutex::lock" and any(
-        "cached_env" in o.proj for o in flow.origins(acq, c.args[0]))]
+    MLOCK = "std::sync::poison::mutex::Mutex::lock"
+
+    def env_lock_wrappers():
+        """functions of the crate that return the guard of `self.cached_env.lock()`: {path: how the LockResult is consumed}"""
+        out = {}
+        for g in prog.fns.values():
+            if g.crate != "minijinja_autoreload" or g.kind == "closure":
+                continue
+            for o in flow.origins(g, 0):
+                if o.kind != "call":
+                    continue
+                for o2 in flow.origins(g, o.call.args[0]) if o.call.args else []:
+                    if o2.kind == "call" and o2.call.name == MLOCK and any(
+                            "cached_env" in x.proj for x in flow.origins(g, o2.call.args[0])):
+                        out[g.path] = o.call.name
+        return out
+    wrappers = env_lock_wrappers()
+    locks = [c for c in acq.calls() if (c.name == MLOCK and any(
+        "cached_env" in o.proj for o in flow.origins(acq, c.args[0]))) or c.name in wrappers]
     ctx.floor("C20.A6 cached_env.lock() in acquire_env", len(locks), 1)
+    # A7: a poisoned environment lock stays poisoned.  The pending flag is cleared before the creator runs and re-armed only
+    # on its Err return; when the creator *panics* the flag stays cleared with the old environment in the slot.  As long
+    # as the lock result is unwrapped the next acquire panics too and nothing stale is handed out; recovering the guard
+    # from the PoisonError (`unwrap_or_else(PoisonError::into_inner)`, `into_inner`, `unwrap_or..`) serves the
+    # pre-request environment for a request that has returned.
+    n7 = 0
+    for g in prog.fns.values():
+        if g.crate != "minijinja_autoreload":
+            continue
+        for c in g.calls():
+            if c.name != MLOCK or not any("cached_env" in o.proj for o in flow.origins(g, c.args[0])):
+                continue
+            n7 += 1
+            users = [k for k in g.calls() if k.args and any(o.kind == "call" and o.call.bb == c.bb and o.call.name == MLOCK
+                                                            for o in flow.origins(g, k.args[0]))]
+            recovered = [k.name for k in users if not (k.name.endswith("Result::unwrap") or k.name.endswith("Result::expect"))]
+            ctx.ob("C20.A7.poisoned-environment-lock-is-not-recovered", g.path.split("::")[-1], not recovered,
+                   "the result of `cached_env.lock()` is consumed by %s: after a creator that panicked (flag cleared, old "
+                   "environment still cached) the next acquire_env hands out the stale environment instead of failing"
+                   % [x.split("::")[-1] for x in recovered], g.where(c.bb))
+    ctx.floor("C20.A7 locks of the cached environment", n7, 1)
     polls = [c for c in acq.calls() if c.name == SHOULD]
     ctx.floor("C20.A6 should_reload() polls in acquire_env", len(polls), 1)
     for n_, c in enumerate(polls):
@@ -217,6 +255,10 @@ def run(ctx):
         if rv.get("k") == "agg" and rv.get("adt") == "minijinja_autoreload::EnvironmentGuard":
             n += 1
             os_ = flow.origins(acq, rv["ops"][0])
+            if len(os_) == 1 and os_[0].kind == "call" and os_[0].call.name in wrappers:
+                ctx.ob("C20.A3.guard-handed-out-is-entry-lock", "EnvironmentGuard#%d" % n, True, "through %s" % os_[0].call.name,
+                       acq.where(bb))
+                continue
             ok = len(os_) == 1 and os_[0].kind == "call" and os_[0].call.name == "core::result::Result::unwrap" and any(
                 o.kind == "call" and o.call.name == "std::sync::poison::mutex::Mutex::lock" and "cached_env" in
                 [x for oo in flow.origins(acq, o.call.args[0]) for x in oo.proj]
